@@ -49,6 +49,7 @@ class ModP(object):
         self.c = program.cls("ellipticcurve:" + clsname)
         self.clsname = clsname
         self.tests = []
+        self.follow = {}          # id(statement) -> the statements that follow it in its block
         self.ctor_args = []       # (func, node, [Val x, y, z])
         self.stores = []          # (func, node, [Val...]) stores to __coords
         self.returns = {}         # method name -> list of tuple-of-Val or Val
@@ -129,7 +130,8 @@ class ModP(object):
                     self.returns[mname] = o
 
     def exec_block(self, stmts, env, guards):
-        for s in stmts:
+        for i, s in enumerate(stmts):
+            self.follow[id(s)] = stmts[i + 1:]
             self.exec_stmt(s, env, guards)
 
     def exec_stmt(self, s, env, guards):
@@ -344,61 +346,118 @@ class ModP(object):
         return Val(W)
 
     # ------------------------------------------------------------------
-    def test(self, t, env, stmt):
-        """record the coordinate-valued comparisons inside a test expression"""
+    def test(self, t, env, stmt, neg=False, ctx=None):
+        """record the coordinate-valued comparisons inside a test expression.
+        neg: the sub-expression sits under an odd number of `not`; ctx: 'and' / 'or' / None -
+        how it contributes to the whole test (after pushing the negations inward)."""
         if isinstance(t, ast.BoolOp):
+            op = "and" if isinstance(t.op, ast.And) else "or"
+            if neg:
+                op = "or" if op == "and" else "and"
+            sub = op if ctx in (None, op) else "mixed"
             for v in t.values:
-                self.test(v, env, stmt)
+                self.test(v, env, stmt, neg, sub)
             return
         if isinstance(t, ast.UnaryOp) and isinstance(t.op, ast.Not):
-            inner = t.operand
-            if isinstance(inner, (ast.BoolOp, ast.Compare)):
-                self.test(inner, env, stmt)
-                return
-            v = self.ev(inner, env)
-            if isinstance(v, Val) and v.cls != "B" and (v.roles or v.cls in (R, S, KS)):
-                self.tests.append(self.mk(stmt, t, "zero", [v]))
+            self.test(t.operand, env, stmt, not neg, ctx)
             return
         if isinstance(t, ast.Compare) and len(t.ops) == 1 and isinstance(t.ops[0], (ast.Eq, ast.NotEq)):
             a, b = self.ev(t.left, env), self.ev(t.comparators[0], env)
+            iseq = isinstance(t.ops[0], ast.Eq) != neg          # true-branch means "equal"
+
             def coordlike(v):
                 return v.const is None and (v.roles or v.cls in (R, S, KS))
             if isinstance(a, Val) and isinstance(b, Val) and "B" not in (a.cls, b.cls) and (coordlike(a) or coordlike(b)):
                 if b.cls == R and b.const == 0 or a.cls == R and a.const == 0:
                     v = a if (b.const == 0) else b
-                    self.tests.append(self.mk(stmt, t, "zero", [v]))
+                    self.tests.append(self.mk(stmt, t, "zero", [v], iseq, ctx, t.left if b.const == 0 else t.comparators[0]))
                 elif b.const == 1 or a.const == 1:
                     v = a if b.const == 1 else b
-                    self.tests.append(self.mk(stmt, t, "eq1", [v]))
+                    self.tests.append(self.mk(stmt, t, "eq1", [v], iseq, ctx))
                 elif a.cls != "C" and b.cls != "C":
-                    self.tests.append(self.mk(stmt, t, "eq", [a, b]))
+                    self.tests.append(self.mk(stmt, t, "eq", [a, b], iseq, ctx))
             return
-        if isinstance(t, ast.Name) or isinstance(t, ast.Subscript):
-            v = self.ev(t, env)
-            if isinstance(v, Val) and (v.roles or v.cls in (R, S, KS)):
-                self.tests.append(self.mk(stmt, t, "zero", [v]))
+        if isinstance(t, (ast.Compare, ast.Constant, ast.Call)) and not isinstance(t, ast.Call):
+            return
+        # truthiness of a value: true means non-zero (zero under negation)
+        v = self.ev(t, env)
+        if isinstance(v, Val) and v.cls != "B" and (v.roles or v.cls in (R, S, KS)):
+            self.tests.append(self.mk(stmt, t, "zero", [v], neg, ctx, t))
 
-    def mk(self, stmt, node, kind, ops):
+    def mk(self, stmt, node, kind, ops, when_true=True, ctx=None, operand=None):
+        """when_true: the test being true means `value is zero` (kind zero) / `values equal`
+        (kinds eq, eq1); ctx: how the atom contributes to the whole condition"""
         if kind == "zero":
             exact = ops[0].cls in (R, S, KS)
         else:
             exact = all(o.cls == R for o in ops)
         roles = frozenset().union(*[o.roles for o in ops])
         tt = Test(self.cur, node, kind, ops, exact, roles, norm_text(node))
-        tt.ctext = canon_text(self.cur.node, node)
+        opnd = operand if operand is not None else node
+        tt.ctext = "%s:%s" % (kind, canon_text(self.cur.node, opnd))
+        tt.optext = norm_text(opnd)
         tt.stmt = stmt
+        tt.when_true = when_true
+        tt.ctx = ctx
+        tt.follow = self.follow.get(id(stmt), [])
         return tt
 
 
-def identity_outcome(stmt, test_node):
-    """does the branch taken when `test_node` is true lead straight to an identity outcome
-    (return INFINITY / return 0, 0, 1 / return the other operand unchanged)?  -> str or None"""
-    if isinstance(stmt, ast.Return):
-        return "identity-comparison" if isinstance(stmt.value, ast.BoolOp) and isinstance(stmt.value.op, ast.Or) else None
+def zero_branch(t):
+    """the statements executed when the tested value IS ZERO (equal, for eq tests), as far as
+    the atom alone decides it: (statements, 'body'|'else'|'follow') or None"""
+    stmt = t.stmt
     if not isinstance(stmt, ast.If):
         return None
-    body = stmt.body
-    if len(body) == 1 and isinstance(body[0], ast.Return) and body[0].value is not None:
+    if t.when_true and t.ctx in (None, "or"):
+        return stmt.body, "body"
+    if (not t.when_true) and t.ctx in (None, "and"):
+        if stmt.orelse:
+            return stmt.orelse, "else"
+        return t.follow, "follow"
+    return None
+
+
+def nonzero_branch(t):
+    """the statements executed when the tested value is NOT zero, as far as the atom alone
+    decides it"""
+    stmt = t.stmt
+    if not isinstance(stmt, ast.If):
+        return None
+    if (not t.when_true) and t.ctx in (None, "or"):
+        return stmt.body, "body"
+    if t.when_true and t.ctx in (None, "and"):
+        if stmt.orelse:
+            return stmt.orelse, "else"
+        return t.follow, "follow"
+    return None
+
+
+def required_for_true(t):
+    """is `value == 0` necessary for the enclosing function to answer True through this test:
+    the atom is a conjunct of the returned expression, or its non-zero branch returns False"""
+    if isinstance(t.stmt, ast.Return):
+        return t.when_true and t.ctx in (None, "and")
+    nb = nonzero_branch(t)
+    if nb and nb[0] and isinstance(nb[0][0], ast.Return) and isinstance(nb[0][0].value, ast.Constant) and nb[0][0].value.value is False:
+        return True
+    return False
+
+
+def identity_outcome(t, _legacy=None):
+    """does the branch taken when the tested value is zero lead straight to an identity outcome
+    (return INFINITY / return 0, 0, 1 / return the other operand unchanged)?  -> str or None"""
+    stmt = t.stmt
+    if isinstance(stmt, ast.Return):
+        # return <zero test> or <zero test> : comparison with the identity
+        if isinstance(stmt.value, ast.BoolOp) and t.ctx == "or" and t.when_true:
+            return "identity-comparison"
+        return None
+    zb = zero_branch(t)
+    if zb is None:
+        return None
+    body = zb[0]
+    if body and isinstance(body[0], ast.Return) and body[0].value is not None:
         v = body[0].value
         if isinstance(v, ast.Name) and v.id == "INFINITY":
             return "INFINITY"
@@ -410,4 +469,12 @@ def identity_outcome(stmt, test_node):
             return "other operand"
         if isinstance(v, ast.BoolOp):
             return "bool"
+    return None
+
+
+def zero_return(t):
+    """the expression returned at once when the tested value is zero, or None"""
+    zb = zero_branch(t)
+    if zb and zb[0] and isinstance(zb[0][0], ast.Return):
+        return zb[0][0].value
     return None
